@@ -29,14 +29,16 @@ FLOORS = {
                            "template_ctor_compares": 300, "overlay_compares": 300,
                            "isolation_rerenders": 150, "lexer_configs_interleaved": 60,
                            "pair_order_checks": 60, "overlay_divergent_option_checks": 100,
-                           "overlay_inherits_option_checks": 100, "overlay_resets_option_checks": 30}},
+                           "overlay_inherits_option_checks": 100, "overlay_resets_option_checks": 30,
+                           "template_ctor_option_checks": 100}},
     "thorough": {"evaluations": 60000, "distinct": 6000,
                  "counters": {"delimiter_compares": 16000, "linestatement_compares": 6000,
                               "linestatement_blank_lines_before_tags": 1200,
                               "template_ctor_compares": 6000, "overlay_compares": 6000,
                               "isolation_rerenders": 3000, "lexer_configs_interleaved": 60,
                               "pair_order_checks": 60, "overlay_divergent_option_checks": 100,
-                              "overlay_inherits_option_checks": 100, "overlay_resets_option_checks": 30}},
+                              "overlay_inherits_option_checks": 100, "overlay_resets_option_checks": 30,
+                              "template_ctor_option_checks": 100}},
 }
 
 SYNTAXES = {
@@ -419,6 +421,20 @@ def check_overlays(ctx, rng):
             return util.capture(f)
 
         want_base, want_ov = fresh({}), fresh(delta)
+
+        # the Template constructor with the same option renders the option-sensitive source alike
+        def ctor():
+            try:
+                return jinja2.Template(src, **delta).render()
+            except jinja2.TemplateSyntaxError:
+                return "TSE"
+        tc = util.capture(ctor)
+        ctx.ev()
+        ctx.count("template_ctor_option_checks")
+        if not same(tc, want_ov):
+            ctx.violation("template-ctor:ignores-option:" + name,
+                          f"Template(src, **{delta}).render() {tc!r}; Environment(**{delta}) renders {want_ov!r} "
+                          f"for {src!r}", {"kind": "overlaydim", "dim": name})
         for order in ("base-first", "overlay-first", "base-first:used-base", "overlay-first:used-base"):
             def get(e):
                 def f():
